@@ -24,5 +24,9 @@ def groups(sc, tier):
     kw = dict(sources=["src/xraylib-parser.c", "src/xraylib-aux.c"], extra=["harness/h_parser.c"], export_local=True,
               remove_bodies=["__CPROVER_file_local_xraylib_parser_c_CompoundParserSimple"], harness_defines=["-DNMAXEL=%d" % n],
               backends=("cvc5", "z3", "sat"), timeout=1200, unwind=n + 2, leak_check=True, bounded="compositions of <= %d elements" % n)
-    return [Group("C07.K5.CompoundParser", "K5", "lemma_CompoundParser", functions=["CompoundParser", "FreeCompoundData"], **kw),
-            Group("C07.K5.CompoundParser_null", "K5", "lemma_CompoundParser_null", functions=["CompoundParser"], **kw)]
+    gs = [Group("C07.K5.CompoundParser_null", "K5", "lemma_CompoundParser_null", functions=["CompoundParser"], **kw)]
+    for k in range(1, n + 1):
+        kw2 = dict(kw)
+        kw2["harness_defines"] = kw["harness_defines"] + ["-DNEL=%d" % k]
+        gs.append(Group("C07.K5.CompoundParser.%d_elements" % k, "K5", "lemma_CompoundParser", functions=["CompoundParser", "FreeCompoundData"], **kw2))
+    return gs
